@@ -28,6 +28,7 @@ import (
 
 var (
 	ErrConnectionClosed = errors.New("Connection Closed")
+	ErrNotAccepted      = errors.New("Connection Not Accepted")
 	ErrRequestNotFound  = errors.New("Request Not Found")
 
 	Endian = binary.LittleEndian
@@ -276,6 +277,13 @@ func (c *RemoteClient) UnsubscribeContracts(ctx context.Context) error {
 // Ready tells the spynode the client is ready to start receiving updates. Call this after
 // connecting and subscribing to all relevant push data.
 func (c *RemoteClient) Ready(ctx context.Context, nextMessageID uint64) error {
+	// Ready completes the handshake, which lets requests through. That can't happen on a
+	// connection the server has not proven itself on, like the one after a reconnect when this
+	// call was meant for the previous one.
+	if !c.IsAccepted(ctx) {
+		return ErrNotAccepted
+	}
+
 	if nextMessageID == 0 {
 		nextMessageID = 1 // first message id is 1
 	}
